@@ -58,7 +58,8 @@ column LABEL, must hold exactly the labelled samples handed over so far in this
 round (values as floats; dtypes and the buffer's own column order are free).
 
 Families added in round 4 (the caller re-uses its containers; labels
-``MD3|<id>|fam-reuse|...`` and ``MD3|<id>|fam-reuse-array|...``):
+``MD3|<id>|fam-reuse|...``, ``MD3|<id>|fam-reuse-array|...`` and
+``MD3|<id>|fam-reuse-columns|...``):
 
   reuse        the harness keeps ONE DataFrame per call shape (update sample,
                labelled sample in each column order, each illegal shape) and ONE
@@ -80,6 +81,21 @@ Families added in round 4 (the caller re-uses its containers; labels
                (oracle_data, the reference frames) is read in the SAME step,
                after the sentinel overwrite; from-scratch re-execution every
                5th maximal path.
+
+  reuse-columns  (second pass) ONE 1-D ndarray per COLUMN and call shape (float64 for
+               the features, int64 for the target — the dtypes of the dict-built
+               schemes) and a new zero-copy frame ``DataFrame({label: array}, copy=
+               False)`` around them for every call: a mixed-dtype, multi-block
+               frame every column of which is a live view of caller memory (the
+               all-float reuse-array frames are one 2-D block).  4 configurations
+               (string / integer / empty-string labels, target first / middle /
+               last, both alphabets, row labels 0 and running); read-back in the
+               same step and from-scratch re-execution as for reuse-array.
+
+  Counters (all in REQUIRED) prove that, per container kind, a labelled sample went
+  through the reused container in each of the four cells {first, later sample of a
+  round} x {columns in the reference's order, in another order}, and in a second
+  round of the same history.
 
 Stronger oracle (round 4): "adopts them as the new reference" — when a round
 completes, ``reference_batch_features`` / ``reference_batch_target``, read by
@@ -369,6 +385,10 @@ def _scribble(buf):
     if isinstance(buf, np.ndarray):
         buf[...] = SENTINEL_F
         return
+    if isinstance(buf, list):  # one 1-D ndarray per column
+        for a in buf:
+            a[...] = SENTINEL_F if a.dtype.kind == "f" else SENTINEL_I
+        return
     for j, dt in enumerate(buf.dtypes):
         v = SENTINEL_F if dt.kind == "f" else SENTINEL_I
         for i in range(len(buf)):
@@ -388,6 +408,19 @@ def _through_buffer(cfg, bufs, meth, df):
         out = pd.DataFrame(arr, columns=df.columns, index=df.index, copy=False)
         # the family is what it says only if the frame is a live view of the caller's array
         assert np.shares_memory(out.to_numpy(), arr), "DataFrame(ndarray, copy=False) copied the buffer"
+        return out
+    if cfg["reuse"] == "columns":
+        # one 1-D ndarray per column (float64 features, int64 target: the dtypes of ``df``) and a new zero-copy frame
+        # around them per call: a mixed-dtype frame every column of which is a live view of caller memory
+        arrs = bufs.get(key)
+        if arrs is None:
+            arrs = bufs[key] = [np.empty(len(df), dtype=dt) for dt in df.dtypes]
+        for j, a in enumerate(arrs):
+            a[...] = df.iloc[:, j].to_numpy()
+        out = pd.DataFrame(dict(zip(df.columns, arrs)), columns=list(df.columns), index=df.index, copy=False)
+        assert list(out.dtypes) == list(df.dtypes) and list(out.columns) == list(df.columns)
+        assert all(np.shares_memory(out.iloc[:, j].to_numpy(), a) for j, a in enumerate(arrs)), \
+            "DataFrame(dict of ndarrays, copy=False) copied a column buffer"
         return out
     buf = bufs.get(key)
     if buf is None:
@@ -771,10 +804,18 @@ class MD3System(System):
                 ctx.count("adopted_reference_rows_checked")
         if reuse and kind in ("label", "confirmed", "rejected"):
             ctx.count("reused_%s_label_%s" % (reuse, "first_of_round" if n_before == 0 else "later_in_round"))
-            if tuple(df.columns) == tuple(_columns(cfg)):
+            in_order = tuple(df.columns) == tuple(_columns(cfg))
+            if in_order:
                 ctx.count("reused_%s_label_in_reference_column_order" % reuse)
             else:
                 ctx.count("reused_%s_label_in_another_column_order" % reuse)
+            # the four cells position in the round x column order (a change may need one particular cell)
+            ctx.count("reused_%s_label_%s_%s" % (reuse, "first" if n_before == 0 else "later",
+                                                 "reference_order" if in_order else "other_order"))
+            if model.rounds >= 1 and kind == "label":
+                ctx.count("reused_%s_label_in_second_round" % reuse)
+            if reuse == "columns" and any(dt.kind == "i" for dt in df.dtypes):
+                ctx.count("reused_columns_label_with_int64_target_view")
 
         if kind in ("label", "confirmed", "rejected") and perm != 0:
             ctx.mark("label_columns_permuted_first_of_round" if n_before == 0
@@ -941,8 +982,13 @@ REUSE_SETTINGS = [
     ("array", "np-t0", "base", "R6", 0.5, 2, 2, None),
     ("array", "np-t2", "perm", "R6", 2, 3, 3, None),
     ("array", "np-xzy", "base", "R8", 2, 3, 3, "stream"),
+    # per-column 1-D buffers: dict-built schemes only (float64 features, int64 target)
+    ("columns", "xzy", "perm", "R8", 0.5, 3, 2, None),
+    ("columns", "yxz", "base", "R6", 0.5, 2, 2, None),
+    ("columns", "int-t1", "perm", "R6", 2, 3, 3, None),
+    ("columns", "empty-last", "base", "R8", 2, 3, 3, "stream"),
 ]
-REUSE_FAMILY = {"frame": "reuse", "array": "reuse-array"}
+REUSE_FAMILY = {"frame": "reuse", "array": "reuse-array", "columns": "reuse-columns"}
 ZREF_SETTINGS = {"Z6": [2, 3], "Z6m": [3], "Z6a": [3], "Z9": [3], "Z10": [2, 3], "Z15": [3]}  # oracle lengths
 FLAT_Q = {2: [3, 5], 3: [3, 5]}  # k -> fold sizes of the flat0 reference batches
 FLATL_SHAPES = [(2, 3), (3, 3)]  # (k, fold size): full star;  FLATL_EXTRA: two points each
@@ -1038,7 +1084,7 @@ def _family_cfgs(tier):
         c = cfg_(family=REUSE_FAMILY[kind], reuse=kind, ref=r, sens=s, L=L, k=k, cols=sch, alphabet=alpha)
         if index:
             c["index"] = index
-        out.append((c, {"depth": REUSE_DEPTH[tier], "validate_every": 5 if kind == "array" else 53,
+        out.append((c, {"depth": REUSE_DEPTH[tier], "validate_every": 53 if kind == "frame" else 5,
                         "tag": "%s,%s,%s,s%s,L%s,k%d%s" % (sch, alpha, r, s, L, k, ",rows-" + index if index else "")}))
     # sens0: sensitivity 0 (every deviation warns, every accuracy drop is a drift)
     for r in ("R6", "R7", "R8"):
@@ -1243,9 +1289,21 @@ REQUIRED = [
     "reused_array_label_in_another_column_order",
     "reference_rows_checked_by_name",
     "adopted_reference_rows_checked",
+    # round 4, second pass
+    "family:reuse-columns",
+    "calls_through_reused_columns",
+    "reused_columns_label_with_int64_target_view",
+] + [
+    "reused_%s_label_%s_%s" % (kind, when, order)
+    for kind in ("frame", "array", "columns")
+    for when in ("first", "later")
+    for order in ("reference_order", "other_order")
+] + ["reused_%s_label_in_second_round" % kind for kind in ("frame", "array", "columns")
 ] + ["cols:" + s for s in SCHEMES if s != BASE_SCHEME]
 
-TIME_BUDGET = {"quick": 600, "thorough": 3000}
+# wall-clock safety net only (the quick tier is ~350 CPU-seconds, i.e. well under a minute on 16 idle cores); sized so
+# that it is not hit with --jobs 6 on a machine shared with other checks either
+TIME_BUDGET = {"quick": 1800, "thorough": 6000}
 
 
 def describe(tier):
@@ -1276,10 +1334,18 @@ def describe(tier):
         "length k, length k+%d; flatL = the same with oracle length = reference length = k x fold size and labelled "
         "rounds that make the adopted references zero-spread as well, scripted two-round histories (length %d..%d) "
         "with every replacement of <= %d calls (scripts longer than 24 calls: 1) by any of %d calls; defaults = MD3 constructed with its default "
-        "sensitivity / k = 10 / oracle length on a 30-row batch, scripted histories (56 calls) with <= 1 replacement"
+        "sensitivity / k = 10 / oracle length on a 30-row batch, scripted histories (56 calls) with <= 1 replacement; "
+        "reuse / reuse-array / reuse-columns = the caller re-uses its containers: ONE container per call shape "
+        "(a DataFrame refilled cell by cell / a 2-D float ndarray / one 1-D ndarray per column, float64 features and "
+        "int64 target, the latter two wrapped in a new zero-copy frame per call) and one for the reference batch, "
+        "filled in place before the call and overwritten with a sentinel right after it, %d + %d + %d configurations "
+        "over %d column schemes and both alphabets, all sequences of length %d; after every accepted call oracle_data "
+        "and the reference batch held by MD3, read by column label, must equal the values handed over"
         % (d, LONG_LEN[tier], LONG_K[tier], len(LONG_MENU), len(SCHEMES) - 1, FAM_DEPTH["cols"][tier],
            FAM_DEPTH["perm"][tier], FAM_DEPTH["sens0"][tier], FAM_DEPTH["zref"][tier],
-           3 + (1 if tier == "thorough" else 0), min(scripts), sorted(scripts)[-3], FLAT_K[tier], len(FLAT_MENU)),
+           3 + (1 if tier == "thorough" else 0), min(scripts), sorted(scripts)[-3], FLAT_K[tier], len(FLAT_MENU),
+           per_family.get("reuse", 0), per_family.get("reuse-array", 0), per_family.get("reuse-columns", 0),
+           len({t[1] for t in REUSE_SETTINGS}), REUSE_DEPTH[tier]),
         "bounds": {
             "depth": d,
             "events": EVENTS,
@@ -1291,7 +1357,13 @@ def describe(tier):
             "illegal_events_per_history": "unbounded (both tiers)",
             "long_stream": {"length": LONG_LEN[tier], "deviations": LONG_K[tier], "menu": LONG_MENU},
             "family_configurations": per_family,
-            "family_depth": {k: v[tier] for k, v in FAM_DEPTH.items()},
+            "family_depth": dict({k: v[tier] for k, v in FAM_DEPTH.items()}, reuse=REUSE_DEPTH[tier]),
+            "reuse_settings": [
+                {"container": t[0], "scheme": t[1], "alphabet": t[2], "reference": t[3], "sensitivity": t[4],
+                 "oracle_length": t[5], "k": t[6], "row_labels": t[7] or "0.."}
+                for t in REUSE_SETTINGS
+            ],
+            "reuse_sentinels": [SENTINEL_F, SENTINEL_I],
             "column_schemes": {
                 k: {"frame_order": [v["lab"][r] for r in v["order"]], "target": v["lab"]["y"],
                     "built_from": "ndarray" if v["np"] else "dict"}
@@ -1325,6 +1397,11 @@ def describe(tier):
             "update() frames list the feature columns in the reference's order (MD3 reads them by position)",
             "threshold comparisons within relative 1e-9 are numerically undecidable and follow the implementation; "
             "exact ties are enforced when all operands and the forgetting factor are dyadic",
+            "reuse families: the caller may overwrite in place any container it passed, as soon as the call has "
+            "returned; what MD3 has collected / adopted must keep the values it was given (it is not required that MD3 "
+            "leaves the caller's container untouched — the property does not say so and the check does not look)",
+            "reuse-array / reuse-columns rely on DataFrame(ndarray or dict of ndarrays, copy=False) being zero-copy "
+            "(asserted at every call)",
             "oracle_data_length_required < k has no k-fold summary: accepted only if the configuration is refused "
             "at construction / set_reference",
         ],
